@@ -19,6 +19,8 @@
 
 #include <initializer_list>
 
+#include <unistd.h>
+
 namespace vp {
 
 class Dice
@@ -107,6 +109,24 @@ std::function<Case(FuzzedDataProvider &)> fuzzFromEntropy(std::function<Case(Dic
     (void)decode;
     return nullptr;
 #endif
+}
+
+/// Some link recipes contain STUB functions that call exit(EXIT_FAILURE) (tests/STUB.h), e.g. when an
+/// assertion wants to log through a stubbed clock.  A harness process that exits with status 1 and no
+/// result file is indistinguishable from "violation reported" for the runner, and the case is lost.
+/// guardExit() turns an exit() in the middle of a case into a captured crash (case dumped, status 98).
+inline void exitInsideCase()
+{
+    if (!current().show) return; // normal end of main()
+    fprintf(stderr, "FATAL: exit() called while a case was being evaluated (stubbed fatal/assert path)\n");
+    deathCallback();
+    _exit(98);
+}
+inline void guardExit()
+{
+    (void)registry(); // construct these statics first, so that they are destroyed after our handler ran
+    (void)current();
+    atexit(exitInsideCase);
 }
 
 } // namespace vp
